@@ -11,7 +11,8 @@ from cocoasm.virtualfiles.virtual_file_exceptions import VirtualFileValidationEr
 
 PID = "C07"
 BOUNDS = ("the C08 write scenarios (lengths around the 256/2304/4608 boundaries, ML/BASIC/ASCII, 1-3 files, names and "
-          "extensions of different lengths/cases, default and permuted fill orders) read back through the tool's own "
+          "extensions of different lengths/cases, one SYMBOLIC name character over a-z / 0-9 / A-Z at positions 0, 3, 5, 7, 8, "
+          "default and permuted fill orders) read back through the tool's own "
           "DiskFile.list_files; second sentence: images built by the independent writer (vlib/oracle_decb.write_image) "
           "on ENUMERATED granule chains (quick: 40 seeded layouts always including non-adjacent, descending and "
           "track-17-straddling chains; thorough: all 4,556 ordered granule pairs and a seeded sample of triples) with "
@@ -34,7 +35,7 @@ def make(sid, specs, order, allsym, full_index, orders):
     def body(ctx):
         buf, descs, err = disk.write(ctx, specs, order, allsym, full_index, orders)
         info = {"files": [s.text() for s in specs], "order": order, "error": err}
-        env = {"lengths": [s.length for s in specs], "kinds": [s.kind for s in specs], "names": [s.name for s in specs],
+        env = {"lengths": [s.length for s in specs], "kinds": [s.kind for s in specs], "names": [getattr(s.name, "label", s.name) for s in specs],
                "order": order, "err": err, "streams": [len(OD.expected_stream(d)) for d in descs], "stage": "write",
                "adjacent": None, "tailroom": None, "rerr": None, "near_end": False}
         if buf is None:
@@ -112,6 +113,12 @@ def obligations(tier, seed):
     S = F.Spec
     orders = disk.fill_orders(seed)
     obs = [make(sid, specs, order, allsym, fi, orders) for (sid, specs, order, allsym, fi) in disk.scenarios(tier, seed)]
+    # one SYMBOLIC character of the name (letters of either case, digits) at the first, a middle, the 8th and a truncated position
+    for sid, sn in (("lower0", F.SymName("ABCDEFGHIJ", 0, 97, 122)), ("lower7", F.SymName("ABCDEFGHIJ", 7, 97, 122)),
+                    ("digit3", F.SymName("ABCDEFGH", 3, 48, 57)), ("upper5", F.SymName("abcdefgh", 5, 65, 90)),
+                    ("upper8", F.SymName("ABCDEFGHIJ", 8, 65, 90)), ("short", F.SymName("AB", 1, 97, 122))):
+        if tier == "thorough" or sid in ("lower0", "digit3", "upper8"):
+            obs.append(make("symname:" + sid, [S(sn, 5, "ml")], "default", 16, 0, orders))
     pairs, triples = layouts(tier, seed)
     for i, (a, b) in enumerate(pairs):
         L = [2300, 2400, 4598, 2305, 2297][i % 5]
